@@ -13,6 +13,20 @@ Ltac split_ifs :=
              end
          end.
 
+Ltac split_ifs_all :=
+  repeat match goal with
+         | |- context [if ?c then _ else _] =>
+             lazymatch c with
+             | context [if _ then _ else _] => fail
+             | _ => let E := fresh "E" in destruct c eqn:E
+             end
+         | H : context [if ?c then _ else _] |- _ =>
+             lazymatch c with
+             | context [if _ then _ else _] => fail
+             | _ => let E := fresh "E" in destruct c eqn:E
+             end
+         end.
+
 (* ---- the adder ------------------------------------------------------------ *)
 
 (* the checked `sum + carry` of utility.rs l.24 never overflows and the code
@@ -391,3 +405,21 @@ Lemma verifies_wsum : forall bs, bytes bs ->
   rfc1071_verifies bs = (oc_norm (wsum bs) =? 65535).
 Proof. intros bs Hb. unfold rfc1071_verifies. rewrite oc_sum_norm by (apply words_u16; assumption). reflexivity. Qed.
 
+
+(* the checked adder never reaches its panic site, for any sequence of 16-bit words *)
+Lemma add_all_checked_ok : forall vs acc, u16 acc -> Forall u16 vs ->
+  add_all_checked acc vs = Ok (fold_left add16 vs acc) /\ u16 (fold_left add16 vs acc).
+Proof.
+  induction vs as [|v r IH]; intros acc Ha Hv.
+  - cbn. auto.
+  - inversion Hv as [|? ? Hv1 Hr]; subst. cbn [add_all_checked fold_left].
+    rewrite add_u16_checked_ok by assumption. cbn [bind].
+    apply IH; [apply add16_range; assumption | assumption].
+Qed.
+
+Lemma firstn_flip_at : forall n bs i j, (i < n)%nat -> firstn n (flip_at bs i j) = flip_at (firstn n bs) i j.
+Proof.
+  induction n as [|n IH]; intros bs i j Hi; [lia|].
+  destruct bs as [|b r]; [destruct i; reflexivity|].
+  destruct i as [|i]; cbn [flip_at firstn]; [reflexivity|]. f_equal. apply IH. lia.
+Qed.
